@@ -77,6 +77,10 @@ SUMMARY = {
 'c08y':'capacity = max(min(8*min, 1 MiB), 64 KiB): with a pattern >= 1 MiB nothing is freed by a roll (told the tester uses small patterns)',
 'c17y':'roll buffer Vec recycled per thread, accepted when its capacity() (not len()) is large enough: after a 64 KiB+ pattern search and an ordinary one, the next 64 KiB+ search gets a truncated buffer (told the tester uses ordinary pattern sizes)',
 'c18y':'fill() resets end to its entry value when a later read of the same call fails: bytes already consumed from the reader are lost; polling on shifts offsets',
+'c07z':'roll() returns early (no move, end not reset) when the dropped prefix is smaller than the kept suffix and min bytes are still free, but the caller already set buffer_pos=min: bytes are scanned twice, offsets shift',
+'c08z':'fill() returns Ok(false) on EOF after data (third independent rediscovery of c08d)',
+'c17z':'single-rare-byte prefilter memoises (address, length, start, hit) of its last scan (variant of c17a)',
+'c18z':'a read error after a partial fill is dropped, Ok(true) returned (variant of c18a)',
 'c18a':'fill returns Ok(true) instead of the error when it had already buffered bytes in the same call: one-shot read errors during the initial fill vanish',
 'c18b':'closure errors of kind Interrupted are retried by calling the closure again: error swallowed, partial output duplicated',
 'c18c':'fill commits its new end only after the loop: an error on a later read of one fill discards bytes accepted earlier; polling on shifts all later offsets',
